@@ -370,6 +370,37 @@ Definition restart_live (cfg : list key) (d : disk) (tr : tread) (sr : bool) : l
   | _ => []
   end.
 
+(* ------------------------------------- the consumers of the live trust set *)
+(* What Resolver.rootKeys MEANS to validation (resolver.go).
+   verifyRootKeys(msg): the keys validation trusts are the live keys whose Flags field is EXACTLY 257
+   (go_root_key_flags); none -> ErrTrustAnchorsUnavailable.  Their DS records are computed from the live keys
+   themselves (dsRRFromRootKeys) and matched back against them (VerifyDS: self-consistent, always succeeds for
+   keys of a supported algorithm — trusted base), then dnssec.VerifyRRSIG decides: some RRSIG over the DNSKEY
+   RRset verifies under one of those keys [verify_with]; a message without any record of the root zone has
+   nothing to validate (VerifyRRSIG: len(rrsets) == 0 -> true). *)
+Inductive rootv := RVAccept | RVUnavailable | RVReject.
+Definition root_key_flags : N := go_root_key_flags.
+Definition root_keys (live : list key) : list key := filter (fun k => k_flags k =? root_key_flags) live.
+Definition verify_root (live keys : list key) (sigs : list sig) : rootv :=
+  match root_keys live with
+  | [] => RVUnavailable
+  | ks => if is_nil keys then RVAccept else if verify_with ks sigs then RVAccept else RVReject
+  end.
+(* Resolver.Resolve for the question (., DNSKEY) with CD=0 — the query AutoTA sends minus the CD bit, and what any
+   client asking for the root keys goes through — once the scripted root has answered with a non-empty DNSKEY
+   RRset: answer() refuses with ErrTrustAnchorsUnavailable while the trust set is EMPTY (hasTrustAnchors:
+   len(rootKeys) > 0 — fail closed); a response without any RRSIG is passed on as insecure (AD clear: there is no
+   DS above the root, isZoneSecure says no); otherwise verifyDNSSEC hands it to verifyRootKeys. *)
+Inductive resolved := RSecure | RUnavailable | RBogus | RInsecure.
+Definition resolve_root (live keys : list key) (sigs : list sig) : resolved :=
+  if is_nil live then RUnavailable
+  else if is_nil sigs then RInsecure
+  else match verify_root live keys sigs with
+       | RVAccept => RSecure
+       | RVUnavailable => RUnavailable
+       | RVReject => RBogus
+       end.
+
 (* ------------------------------------------------- the system across runs *)
 Record sys := mk_sys { s_live : list key; s_cfg : list key; s_disk : disk }.
 
